@@ -144,6 +144,16 @@ def tree_case(H, ex, case):
         t = none_term() if tgt == 'none' else (outside if tgt == 'outside' else refs[tgt])
         inst = insts.entries[node][1].v
         inst.f[H.DH.I['properties']].entries.append([StrV.lit(b'R'), Cell(Enum('Variant', 'Ref', [ref_val(t)]))])
+    content_props = case.get('crefs', {})                             # node -> target node | 'none' | 'outside' | ('uri', byte)
+    for node, tgt in content_props.items():
+        inst = insts.entries[node][1].v
+        if isinstance(tgt, tuple):
+            cv = Enum('ContentType', 'Uri', [StrV([mk_int(tgt[1], 'u8')], None)])
+        elif tgt == 'none':
+            cv = Enum('ContentType', 'None', [])
+        else:
+            cv = Enum('ContentType', 'Object', [ref_val(outside if tgt == 'outside' else refs[tgt])])
+        inst.f[H.DH.I['properties']].entries.append([StrV.lit(b'C'), Cell(Enum('Variant', 'Content', [Struct([cv], 'Content')]))])
     roots_idx = case.get('roots') or [i for i in range(1, n + 1) if shape[i] == 0]
     written = []
 
@@ -166,7 +176,7 @@ def tree_case(H, ex, case):
         raise Violation('C01.reject[sertree]: Serializer::serialize fails on a plain forest')
     data = out.items
     ex.input_bytes = data
-    def c03_part():
+    def c03_part(data=data):
         ntypes, ninst, chunks = parse_file(data)
         names = [c[0] for c in chunks]
         wclasses = sorted({classes[i] for i in written})
@@ -176,7 +186,7 @@ def tree_case(H, ex, case):
             raise Violation('C03.struct[end]: the file does not end with an END chunk holding </roblox>')
         if names.count(b'PRNT') != 1 or names.index(b'PRNT') != len(names) - 2:
             raise Violation('C03.struct[prnt]: exactly one PRNT chunk right before END expected (chunks: %s)' % names)
-        by_class, cids, ref_of = {}, {}, {}
+        by_class, cids, ref_of, content_of = {}, {}, {}, {}
         for nm, body in chunks:
             if nm != b'INST':
                 continue
@@ -190,6 +200,11 @@ def tree_case(H, ex, case):
             if len(body) != p_ + 5 + 4 * cnt + (cnt if fmt == 1 else 0) or fmt not in (0, 1):
                 raise Violation('C03.struct[inst]: INST chunk of %s has a wrong length / format' % cname)
             by_class[cname] = un_referents(body[p_ + 5:p_ + 5 + 4 * cnt], cnt, 'INST referents')
+            svc = cname in case.get('services', ())
+            if fmt != (1 if svc else 0):
+                raise Violation('C03.struct[inst_format]: class %s is written with object format %d' % (cname, fmt))
+            if svc and conc(body[p_ + 5 + 4 * cnt:], 'service markers') != b'\x01' * cnt:
+                raise Violation('C03.struct[inst_service_markers]: service class %s with %d instances carries the markers %r (one byte 1 per instance)' % (cname, cnt, conc(body[p_ + 5 + 4 * cnt:], 'x')))
             cids[cid] = cname
         if sorted(by_class) != wclasses:
             raise Violation('C03.struct[inst]: INST chunks for %s, written classes are %s' % (sorted(by_class), wclasses))
@@ -220,6 +235,39 @@ def tree_case(H, ex, case):
                     raise Violation('C03.prop[ser_Ref]: Ref column has type id 0x%02x / %d bytes for %d instances' % (tid, len(body) - pos, len(members)))
                 for r, tv in zip(members, un_referents(body[pos:], len(members), 'Ref values')):
                     ref_of[r] = tv
+            elif pname == b'C':
+                # Content column: source types (interleaved i32), uri count + strings, object count + referent array, external count 0
+                if tid != 0x22:
+                    raise Violation('C03.prop[ser_Content]: Content column has type id 0x%02x' % tid)
+                m_ = len(members)
+                raw = conc(body[pos:pos + 4 * m_], 'Content source types')
+                types_ = []
+                for i_ in range(m_):
+                    z_ = int.from_bytes(bytes(raw[i_ + m_ * j_] for j_ in range(4)), 'big')
+                    types_.append((z_ >> 1) ^ -(z_ & 1))
+                pos += 4 * m_
+                nuri = u32(body[pos:pos + 4], 'uri count')
+                pos += 4
+                uris = []
+                for _ in range(nuri):
+                    sv, pos = read_string(body, pos, 'uri')
+                    uris.append(conc(sv, 'uri'))
+                nobj = u32(body[pos:pos + 4], 'object count')
+                pos += 4
+                objs = un_referents(body[pos:pos + 4 * nobj], nobj, 'Content objects')
+                pos += 4 * nobj
+                if u32(body[pos:pos + 4], 'external count') != 0 or pos + 4 != len(body):
+                    raise Violation('C03.prop[ser_Content]: Content column does not end with an external-object count of 0')
+                if types_.count(1) != nuri or types_.count(2) != nobj:
+                    raise Violation('C03.prop[ser_Content]: %d URI / %d object values but UriCount = %d, ObjectCount = %d' % (types_.count(1), types_.count(2), nuri, nobj))
+                ui = oi = 0
+                for r, ty in zip(members, types_):
+                    if ty == 1:
+                        content_of[r] = ('uri', uris[ui]); ui += 1
+                    elif ty == 2:
+                        content_of[r] = ('obj', objs[oi]); oi += 1
+                    else:
+                        content_of[r] = ('none', None)
             else:
                 raise Violation('C03.struct[prop]: unexpected property column %r' % pname)
         want_names = {('N%d' % i) for i in written}
@@ -251,12 +299,26 @@ def tree_case(H, ex, case):
             sibs_file = [node_of[r] for r, p in zip(ch, pa) if (p == -1 if parent is None else (p != -1 and node_of[p] == parent))]
             if sibs_dom != sibs_file:
                 raise Violation('C03.struct[sibling_order]: children of %s are listed as %s in PRNT, the DOM order is %s' % ('the file root' if parent is None else 'N%d' % parent, sibs_file, sibs_dom))
+        for node, tgt in content_props.items():
+            if node not in written:
+                continue
+            got_c = content_of.get(file_ref[node])
+            if isinstance(tgt, tuple):
+                want_c = ('uri', bytes([tgt[1]]))
+            elif tgt == 'none':
+                want_c = ('none', None)
+            else:
+                want_c = ('obj', file_ref[tgt] if isinstance(tgt, int) and tgt in written else -1)
+            if got_c != want_c:
+                raise Violation('C03.prop[ser_Content]: Content of N%d (%s) is written as %s, expected %s' % (node, tgt, got_c, want_c))
         for node, tgt in ref_props.items():
             if node not in written:
                 continue
             want_t = file_ref[tgt] if isinstance(tgt, int) and tgt in written else -1
             if ref_of.get(file_ref[node]) != want_t:
                 raise Violation('C03.prop[ser_Ref]: Ref of N%d (target %s) is written as %s, expected %d' % (node, tgt, ref_of.get(file_ref[node]), want_t))
+    ex.tree_case = dict(written=written, roots=roots_idx)
+    ex.c03_tree = c03_part
     _guarded(case, c03_part)
     if case.get('prop') == 'C03':
         return 'ok'
@@ -296,6 +358,22 @@ def tree_case(H, ex, case):
         want_k = by_name['N%d' % tgt] if isinstance(tgt, int) and tgt in written else 'none'
         if A.canon(pr[b'R'].f[0]) != want_k:
             raise Violation('C01.prop[rt_Ref]: Ref of N%d points at %s after the round trip, expected %s' % (node, A.canon(pr[b'R'].f[0]), want_k))
+    for node, tgt in content_props.items():
+        if node not in written:
+            continue
+        pr = {pk.concrete_bytes(): pv for pk, pv in d.nodes[by_name['N%d' % node]]['props']}
+        if b'C' not in pr or pr[b'C'].variant != 'Content':
+            raise Violation('C01.prop[rt_Content]: Content property of N%d is missing after the round trip' % node)
+        cv = ex.force(pr[b'C'].f[0].f[0])
+        if isinstance(tgt, tuple):
+            ok_ = cv.variant == 'Uri' and deref(cv.f[0]).concrete_bytes() == bytes([tgt[1]])
+        elif tgt == 'none':
+            ok_ = cv.variant == 'None'
+        else:
+            want_k = by_name['N%d' % tgt] if isinstance(tgt, int) and tgt in written else 'none'
+            ok_ = cv.variant == 'Object' and A.canon(cv.f[0]) == want_k
+        if not ok_:
+            raise Violation('C01.prop[rt_Content]: Content of N%d (%s) comes back as %s%s' % (node, tgt, cv.variant, (' -> ' + str(A.canon(cv.f[0]))) if cv.variant == 'Object' else ''))
     return 'ok'
 
 
@@ -586,9 +664,39 @@ def sstr_case(H, ex, case):
     return 'ok'
 
 
+def sersink_case(H, ex, case):
+    """C13: Serializer::serialize into a sink with room for k bytes returns an error unless the whole file was written"""
+    A = Atoms(ex)
+    dom, refs = build_dom(H, ex, A, [-1, 0], ['DataModel', 'A'], [[], [(b'P', Enum('Variant', 'Int32', [sym_int('v', 'i32')]))]])
+    db = H.database(None)
+    ser = H.S('Serializer', database=Ptr(Cell(db)), compression=Enum('CompressionType', 'None'))
+
+    def write(sink):
+        roots = ArrayV([ref_val(refs[1])])
+        try:
+            return ex.force(ex.call_fn(H.F_SER, [Ptr(Cell(ser)), Ptr(Cell(sink)), Ptr(Cell(dom)), SliceRef(Ptr(Cell(roots)), 0, 1)]))
+        except PanicPath as p:
+            raise Violation('C13.panic[ser_sink]: Serializer::serialize panics when the sink fails: %s at %s' % (p.msg, p.site))
+    full = VecM([])
+    if write(full).variant != 'Ok':
+        raise Violation('C13.sink: Serializer::serialize fails into a plain Vec')
+    total = len(full.items)
+    k = case['room'] if case['room'] >= 0 else total + case['room']          # negative: counted from the end of the file
+    if k < 0 or k >= total:
+        raise Infeasible()
+    sink = iomodels.SinkV(limit=k)
+    r = write(sink)
+    ex.sersink = dict(room=k, total=total)
+    if r.variant == 'Ok':
+        raise Violation('C13.sink[ser_sink]: Serializer::serialize reports success although the sink took only %d of the %d bytes (room for %d)' % (len(sink.out), total, k))
+    return 'err'
+
+
 def run_case(H, ex, case):
     what = case['what']
     _EX[0] = ex
+    if what == 'sersink':
+        return sersink_case(H, ex, case)
     if what == 'sstr':
         return sstr_case(H, ex, case)
     if what == 'det':
@@ -895,6 +1003,11 @@ def confirm(H, ex, case, label):
         return confirm_sstr(H, ex, case, label)
     if case['what'] == 'det':
         return confirm_det(H, ex, case, label)
+    if case['what'] == 'sertree':
+        return confirm_tree(H, ex, case, label)
+    if case['what'] == 'sersink':
+        # same replay as the chunk sink obligation: the public writer into a limited sink, every room below the file size
+        return Bc.confirm(H, ex, dict(what='dump', len=0, room=0), label)
     if ex.solver.check() != z3.sat or not getattr(ex, 'ser_case', None):
         return False, None, 'no model / case state for a replay'
     m = ex.solver.model()
@@ -1074,3 +1187,82 @@ def confirm_det(H, ex, case, label):
     detail = 'native: %s' % ({k: v for k, v in (r or {}).items() if k != 'first'} or out.strip()[-200:])
     json.dump(dict(property='C07', label=label, input=spec, native=out[-800:], confirmed=bool(ok), detail=detail, how='tools/replayer bytes binary-det %s' % inp), open(path, 'w'), indent=1)
     return bool(ok), path, detail
+
+
+def confirm_tree(H, ex, case, label):
+    """native: the same forest (Refs, Content values, service classes, root selection) through tools/replayer bytes binary-tree; C03
+    labels: the structural checks of this module are re-run on the bytes the real writer produced; C01 labels: the decoded view is
+    compared with the forest that was written"""
+    import hashlib
+    from .. import common as C, gen
+    shape, classes = list(case['shape']), list(case['classes'])
+    n = len(shape) - 1
+
+    def tj(t):
+        if t is None:
+            return None
+        if isinstance(t, tuple):
+            return {'uri': [t[1]]}
+        if t == 'none':
+            return {'none': 1}
+        if t == 'outside':
+            return {'outside': 1}
+        return {'node': t - 1}
+    nodes = [{'class': classes[i], 'parent': (shape[i] - 1) if shape[i] > 0 else None, 'ref': tj(case.get('refs', {}).get(i)), 'content': tj(case.get('crefs', {}).get(i))} for i in range(1, n + 1)]
+    tc = getattr(ex, 'tree_case', None) or {}
+    roots = [r - 1 for r in (tc.get('roots') or [i for i in range(1, n + 1) if shape[i] == 0])]
+    spec = {'db': Bc.db_json(case.get('db')), 'nodes': nodes, 'roots': roots}
+    os.makedirs(C.REPLAYS, exist_ok=True)
+    tag = hashlib.sha256(json.dumps(spec, sort_keys=True).encode()).hexdigest()[:10]
+    inp = os.path.join(C.REPLAYS, '%s_tree_%s.input.json' % (label.split('.')[0], tag))
+    json.dump(spec, open(inp, 'w'))
+    rc, out, _ = C.run([gen.tool('replayer'), 'bytes', 'binary-tree', inp], timeout=60)
+    path = os.path.join(C.REPLAYS, '%s_tree_%s.json' % (label.split('.')[0], tag))
+    try:
+        r = json.loads(out.strip().split('\n')[-1]) if 'PANIC' not in out else None
+    except Exception:
+        r = None
+    ok, detail = False, 'native: ' + out.strip()[-200:]
+    if 'panic' in label:
+        ok = 'PANIC' in out
+    elif 'reject' in label:
+        ok = r is not None and ('write_err' in r or 'read_err' in r)
+    elif r is not None and 'file' in r and label.startswith('C03') and getattr(ex, 'c03_tree', None):
+        try:
+            ex.c03_tree([mk_int(b, 'u8') for b in bytes.fromhex(r['file'])])
+            detail = 'native file passes the structural checks'
+        except Violation as v_:
+            ok, detail = True, 'native file: ' + v_.label[:260]
+    elif r is not None and 'decoded' in r:
+        written = tc.get('written') or list(range(1, n + 1))
+        order = []
+
+        def walk(i):
+            order.append(i)
+            for c_ in range(1, n + 1):
+                if shape[c_] == i:
+                    walk(c_)
+        for r_ in [x + 1 for x in roots]:
+            walk(r_)
+        pos = {node: k + 1 for k, node in enumerate(order)}
+
+        def exp_t(t, content):
+            if content and isinstance(t, tuple):
+                return {'Content': {'Uri': [t[1]]}}
+            if t == 'none' and content:
+                return {'Content': None}
+            tgt = pos.get(t) if isinstance(t, int) else None
+            return {'Content': {'Object': tgt}} if content else {'Ref': tgt}
+        want = []
+        for node in order:
+            props = {}
+            if node in case.get('refs', {}):
+                props['R'] = exp_t(case['refs'][node], False)
+            if node in case.get('crefs', {}):
+                props['C'] = exp_t(case['crefs'][node], True)
+            want.append([classes[node], 'N%d' % node, 0 if node in [x + 1 for x in roots] else pos[shape[node]], props])
+        got = [[x['class'], bytes(x['name']).decode(), x['parent'], dict(map(tuple, x['props']))] for x in r['decoded'][1:]]
+        ok = got != want
+        detail = 'native: read back %s, written %s' % (json.dumps(got)[:160], json.dumps(want)[:160])
+    json.dump(dict(property=label.split('.')[0], label=label, input=spec, native=out[-1000:], confirmed=ok, detail=detail, how='tools/replayer bytes binary-tree %s' % inp), open(path, 'w'), indent=1)
+    return ok, path, detail
